@@ -30,6 +30,11 @@ type stubTransport struct {
 	onWrite func(p []byte) // called with the bytes of every Write before it returns (C07: response racing the request)
 	// writeFault, when set, may take over a Write: handled = true returns (n, err) to the caller instead of writing
 	writeFault func(p []byte, inner xmpp.Transport) (handled bool, n int, err error)
+	// failStarted / failRelease, when set: the first failing Ping announces itself and returns its error only when
+	// released (a write that hangs on a dead connection before it fails)
+	failStarted chan struct{}
+	failRelease chan struct{}
+	failOnce    bool // only the failAt-th Ping fails, later ones go through again
 }
 
 func (s *stubTransport) Connect() (string, error) {
@@ -103,8 +108,15 @@ func (s *stubTransport) Ping() error {
 	s.pings = append(s.pings, time.Now())
 	n := len(s.pings)
 	fail := s.failAt > 0 && n >= s.failAt
+	if s.failOnce {
+		fail = n == s.failAt
+	}
 	s.mu.Unlock()
 	if fail {
+		if s.failStarted != nil && n == s.failAt {
+			close(s.failStarted)
+			<-s.failRelease
+		}
 		return errors.New("injected ping failure")
 	}
 	if s.inner != nil {
@@ -149,6 +161,10 @@ type c18Case struct {
 	// ended with Disconnect - still in flight, the server never answers the stream end - and reconnected as soon as the
 	// loss was reported; the new session is then watched for longer than Transport.Close waits (ConnectTimeout, 1 s)
 	PriorDisconnect bool `json:"prior_disconnect,omitempty"`
+	// PingFailsLate (end to end, clear-text TCP): the FailAt-th keepalive hangs; meanwhile the connection is cut, the
+	// loss is reported and the application reconnects; only then does the keepalive return its error. The new session is
+	// watched for 1.3 s: a keepalive of the old session must not close it
+	PingFailsLate bool `json:"ping_fails_late,omitempty"`
 }
 
 func genC18(t *rapid.T) c18Case {
@@ -172,6 +188,10 @@ func genC18(t *rapid.T) c18Case {
 		c.SlowHandler = rapid.Bool().Draw(t, "slowHandler")
 		if !c.TLS && rapid.IntRange(0, 2).Draw(t, "ws") == 0 {
 			c.WS = true
+		}
+		if !c.WS && !c.TLS && c.FailAt > 0 && rapid.IntRange(0, 1).Draw(t, "pingFailsLate") == 0 {
+			c.PingFailsLate = true
+			c.SlowHandler = false
 		}
 		if !c.WS && c.FailAt == 0 && rapid.IntRange(0, 2).Draw(t, "priorDisconnect") == 0 {
 			c.PriorDisconnect = true
@@ -286,6 +306,7 @@ func runC18E2E(c c18Case) vh.Result {
 	res.NonTrivial = true
 	var pconn *peer.Conn
 	established := make(chan struct{})
+	established2 := make(chan struct{})
 	cut := make(chan struct{})
 	probe := make(chan struct{})
 	const probeMsg = `<message xmlns="jabber:client" id="c18-probe" type="chat" from="a@b/c" to="user@localhost/res"><body>still there</body></message>`
@@ -339,6 +360,19 @@ func runC18E2E(c c18Case) vh.Result {
 				pc.Close()
 				return
 			}
+			if c.PingFailsLate && pc.Index == 1 {
+				// the session the application sets up after the loss
+				if out := pc.Negotiate(&peer.Script{Mechs: []string{"PLAIN"}}, 10*time.Second); !out.Established {
+					return
+				}
+				close(established2)
+				go func() {
+					<-probe
+					pc.Send(probeMsg)
+				}()
+				pc.Drain(30 * time.Second)
+				return
+			}
 			pconn = pc
 			out := pc.Negotiate(&peer.Script{Mechs: []string{"PLAIN"}, OfferTLS: c.TLS, Cert: "valid"}, 10*time.Second)
 			if !out.Established {
@@ -373,6 +407,9 @@ func runC18E2E(c c18Case) vh.Result {
 		return res
 	}
 	wrap := &stubTransport{failAt: c.FailAt, inner: xmpp.VerifGetTransport(cl)}
+	if c.PingFailsLate {
+		wrap.failOnce, wrap.failStarted, wrap.failRelease = true, make(chan struct{}), make(chan struct{})
+	}
 	xmpp.VerifSetTransport(cl, wrap)
 	var inHandler [2]int // keepalives attempted so far when the Disconnected handler was entered / left
 	var handlerDone atomic.Bool
@@ -433,6 +470,57 @@ func runC18E2E(c c18Case) vh.Result {
 			}
 		}
 		return
+	}
+	if c.PingFailsLate {
+		res.Label("ping-fails-after-reconnection")
+		released := false
+		defer func() {
+			if !released {
+				close(wrap.failRelease)
+			}
+		}()
+		select {
+		case <-wrap.failStarted:
+		case <-time.After(vh.Margin(4*time.Second) + time.Duration(c.FailAt+100)*interval):
+			res.Fail("t/keepalive-not-sent", "%s: keepalive %d was never attempted", desc, c.FailAt)
+			return res
+		}
+		close(cut) // the connection goes away while that keepalive hangs
+		if !waitFor(vh.Margin(5*time.Second), func() bool { return rec.count(xmpp.StateDisconnected) >= 1 }) {
+			res.Fail("t/loss-not-reported", "%s: the connection was cut while a keepalive was hanging; no Disconnected event", desc)
+			return res
+		}
+		if err := cl.Connect(); err != nil {
+			res.Fail("harness-reconnect", "%s: reconnecting failed: %v", desc, err)
+			return res
+		}
+		select {
+		case <-established2:
+		case <-time.After(10 * time.Second):
+			res.Fail("harness", "second session not established")
+			return res
+		}
+		released = true
+		close(wrap.failRelease) // now the old keepalive learns that its write failed
+		time.Sleep(1300 * time.Millisecond)
+		if n := rec.count(xmpp.StateDisconnected); n > 1 {
+			_, errs, _ := rec.snapshot()
+			res.Fail("new-session-ended-by-old-keepalive", "%s: the keepalive of the lost session failed after the application had reconnected, and the new session was reported lost (%d Disconnected events, errors %v)", desc, n, errs)
+			return res
+		}
+		close(probe)
+		if !waitFor(vh.Margin(3*time.Second), func() bool {
+			_, _, pk := rec.snapshot()
+			for _, p := range pk {
+				if _, id := packetID(p); id == "c18-probe" {
+					return true
+				}
+			}
+			return false
+		}) {
+			res.Fail("t/new-session-dead-after-old-keepalive", "%s: a message sent on the new session 1.3 s after the old keepalive had failed was not routed", desc)
+		}
+		return res
 	}
 	if c.FailAt > 0 {
 		res.Label("ping-failure")
@@ -523,7 +611,7 @@ func runC18E2E(c c18Case) vh.Result {
 
 var c18 = vh.Define(&vh.Def[c18Case]{
 	Property: "C18", Name: "keepalive",
-	Rule: "interval 2-40 ms x {k-th keepalive write fails, k in 1-10 | session ends after a generated fraction of the interval (1-100 tenths) | steady} x {bare keepalive loop on a stub Transport | real Client whose Transport is wrapped (Ping fails at k) against the scripted peer, the session ending by a cut of the connection or by </stream:stream> on a connection that stays open, over clear-text TCP, STARTTLS or WebSocket (ping frames; attempts counted in the wrapped Transport), in a third of the steady TCP cases after an earlier session of the same Client whose Disconnect is still in flight (the server never answers the stream end) and with the new session watched for 1.3 s, the application's Disconnected handler returning at once or after 8 intervals (at most one keepalive may be attempted while it runs)}; oracle: n keepalives never take less than (n-1) intervals (a ticker never fires early: sound upper bound on the rate) at least one within 100 intervals + 3 s, each is a single newline on the wire, after the failing keepalive Close is called exactly once, no further keepalive follows, the loop returns and (end to end) the loss is reported by one error callback and one Disconnected event, no keepalive starts later than max(3 intervals, 100 ms) after the session ended and the loop returns; non-trivial = a failure index or an end time was drawn, or the end-to-end variant",
+	Rule: "interval 2-40 ms x {k-th keepalive write fails, k in 1-10 | session ends after a generated fraction of the interval (1-100 tenths) | steady} x {bare keepalive loop on a stub Transport | real Client whose Transport is wrapped (Ping fails at k) against the scripted peer, the session ending by a cut of the connection or by </stream:stream> on a connection that stays open, over clear-text TCP, STARTTLS or WebSocket (ping frames; attempts counted in the wrapped Transport), in a third of the steady TCP cases after an earlier session of the same Client whose Disconnect is still in flight (the server never answers the stream end) and with the new session watched for 1.3 s, in half of the clear-text ping-failure cases the failing keepalive hangs until the connection has been cut, the loss reported and a new session set up, which must then survive it, the application's Disconnected handler returning at once or after 8 intervals (at most one keepalive may be attempted while it runs)}; oracle: n keepalives never take less than (n-1) intervals (a ticker never fires early: sound upper bound on the rate) at least one within 100 intervals + 3 s, each is a single newline on the wire, after the failing keepalive Close is called exactly once, no further keepalive follows, the loop returns and (end to end) the loss is reported by one error callback and one Disconnected event, no keepalive starts later than max(3 intervals, 100 ms) after the session ended and the loop returns; non-trivial = a failure index or an end time was drawn, or the end-to-end variant",
 	Quick: 160, Thorough: 2400, Journal: true,
 	Gen: genC18, Run: runC18,
 })
